@@ -64,6 +64,9 @@ def tree_hash(cfg):
     return h.hexdigest()[:24]
 
 
+KEEP_STALE = 6
+
+
 def facts(cfg='dev', quiet=False):
     """Return path of the fact file for /repo's current tree under configuration `cfg`."""
     if cfg not in CONFIGS:
@@ -78,9 +81,14 @@ def facts(cfg='dev', quiet=False):
         out = os.path.join(CACHE, 'facts-%s-%s.jsonl' % (cfg, key))
         if os.path.exists(out) and os.path.getsize(out) > 0:
             return out
-        # drop stale fact files of this cfg
-        for old in glob.glob(os.path.join(CACHE, 'facts-%s-*.jsonl' % cfg)):
-            os.remove(old)
+        # drop stale fact files of this cfg, keeping the few most recent ones: another process (a self-test
+        # mutant run, a parallel check of a different tree) may still be about to read its own file
+        olds = sorted(glob.glob(os.path.join(CACHE, 'facts-%s-*.jsonl' % cfg)), key=os.path.getmtime, reverse=True)
+        for old in olds[KEEP_STALE:]:
+            try:
+                os.remove(old)
+            except OSError:
+                pass
         t0 = time.time()
         prof, feat = CONFIGS[cfg]
         target = os.path.join(CACHE, 'target-' + cfg)
